@@ -158,3 +158,29 @@ Theorem C05_generated_emit_nocontent_is_model :
                      (calls (emit (w_reason w) (mkResp CNoContent st hs ct0 cl0 body))) [])), []).
 Proof. exact gen_nocontent_start_response_eq. Qed.
 Print Assumptions C05_generated_emit_nocontent_is_model.
+
+(* ---- generated census of the places where the framework itself names a
+   response header (translator harness/py2v_hdrwrites.py ->
+   gen/HeaderWritesGen.v, regenerated from response.py and wsgi.py on every
+   run): every store, deletion, add / add_header / setdefault / pop by a
+   literal name and every literal header collection is one of the automatic
+   headers of the model (model/HeaderWrites.v) — Content-Type and
+   Content-Length at emission, the range block, the constructor arguments of
+   the special classes, X-Powered-By of a response built without headers.
+   The framework touches no other header of a response on its own. *)
+From Coq Require Import String.
+Local Open Scope string_scope.
+Local Open Scope list_scope.
+Require Import PW.model.HeaderWrites PW.gen.HeaderWritesGen.
+
+Theorem C05_generated_automatic_headers_are_the_modelled_ones :
+  (forall w, In w header_writes -> In w allowed_header_writes) /\
+  In ("response.BaseResponse.__start_response__", "self.__headers", "add",
+      "Content-Type") header_writes /\
+  In ("response.BaseResponse.__start_response__", "self.__headers", "add",
+      "Content-Length") header_writes.
+Proof.
+  split; [apply header_writes_ok_spec; vm_compute; reflexivity|].
+  split; vm_compute; tauto.
+Qed.
+Print Assumptions C05_generated_automatic_headers_are_the_modelled_ones.
